@@ -318,7 +318,7 @@ def plan(tier):
     if tier == 'thorough':
         specs += [{'kind': 'hyp', 'shard': 100 + i, 'examples': 12000} for i in range(16)]
     else:
-        specs += [{'kind': 'hyp', 'shard': 100 + i, 'examples': 600} for i in range(8)]
+        specs += [{'kind': 'hyp', 'shard': 100 + i, 'examples': 2500} for i in range(16)]
     return specs
 
 
